@@ -28,7 +28,12 @@ def run(rep, drv):
 	items = []
 	for k in range(400 if th else 60):
 		if k % 3 == 0 or not items:
-			items.append((rng.choice([0.5, 1, 2, 3]), rng.choice([4, 9, 18, 36]), rng.choice([2, 8, 20, 64]), rng.choice([0.5, 1.5, 3, 6])))
+			if rng.random() < .3:
+				# stockout cost BELOW the holding cost (critical ratio < 1/2): the newsvendor level lies below the mean lead-time demand
+				items.append((rng.choice([5, 10, 20]), rng.choice([0.5, 2, 4]), rng.choice([0.5, 2, 8]), rng.choice([1.5, 4, 6])))
+				rep.count('fz:stockout-cost-below-holding-cost')
+			else:
+				items.append((rng.choice([0.5, 1, 2, 3]), rng.choice([4, 9, 18, 36]), rng.choice([2, 8, 20, 64]), rng.choice([0.5, 1.5, 3, 6])))
 		h, p, K, lam = items[-1]
 		L = [2, 4, 1, 0.5][k % 3] if k % 3 else rng.choice([1, 2, 0.5])
 		mu = lam * L
